@@ -2,3 +2,4 @@ import Generated.Constants
 import Generated.FastDivTab
 import Generated.Globals
 import Generated.ExternRefs
+import Generated.VersionGates
